@@ -17,8 +17,11 @@ import (
 
 // ---- the model's alphabet and its concrete meaning ----
 
-var TaskIDs = []string{"t1", "t2"}
-var TplIDs = []string{"p1", "p2"}
+// The ids are prefix related on purpose (t / t2, p / p2): every key of the store is built by string
+// concatenation (/tasks/data/<id>, /templates/tasks/<tpl>/<task>) and read back by prefix scans, so an
+// id that is a prefix of another one is where a missing delimiter shows.
+var TaskIDs = []string{"t", "t2"}
+var TplIDs = []string{"p", "p2"}
 
 // Scripts by model id.  s*: plain task scripts, q*: template scripts.
 //
@@ -176,6 +179,11 @@ func (v TaskView) m() rt.M {
 
 type Catalogue struct {
 	Tasks map[string]TaskView
+	// Pages: ids returned, in order, by paged / filtered list requests:
+	//   o1   GET /tasks?offset=1                 l1   GET /tasks?limit=1
+	//   po1  GET /tasks?pattern=t*&offset=1      pt2  GET /tasks?pattern=t2
+	//   to1  GET /templates?offset=1
+	Pages map[string][]string
 	Tpls  map[string]string // template id -> script id ("" = not listed)
 	Extra []string          // listed ids outside the model's universe, list/get disagreements
 	Assoc [][]string        // raw association keys of the store (internal layout, drift level only)
@@ -198,7 +206,15 @@ func (c Catalogue) fields() rt.M {
 	for _, e := range c.Extra {
 		ex = append(ex, e)
 	}
-	return rt.M{"tasks": ts, "tpls": ps, "assoc": as, "extra": ex}
+	pg := rt.M{}
+	for _, k := range []string{"o1", "l1", "po1", "pt2", "to1"} {
+		l := []any{}
+		for _, id := range c.Pages[k] {
+			l = append(l, id)
+		}
+		pg[k] = l
+	}
+	return rt.M{"tasks": ts, "tpls": ps, "assoc": as, "extra": ex, "pages": pg}
 }
 
 func dbrpsID(v any) string {
@@ -355,9 +371,46 @@ func (w *world) catalogue() Catalogue {
 			c.Tpls[id] = "none"
 		}
 	}
+	c.Pages = map[string][]string{}
+	for k, q := range map[string]string{
+		"o1":  "/tasks?offset=1",
+		"l1":  "/tasks?limit=1",
+		"po1": "/tasks?pattern=" + TaskIDs[0] + "*&offset=1",
+		"pt2": "/tasks?pattern=" + TaskIDs[1],
+		"to1": "/templates?offset=1",
+	} {
+		ids, err := w.listIDs(q)
+		if err != nil {
+			c.Extra = append(c.Extra, "list "+q+": "+err.Error())
+		}
+		c.Pages[k] = ids
+	}
 	c.Assoc = w.assoc()
 	sort.Strings(c.Extra)
 	return c
+}
+
+// listIDs issues a list request (path with query, below the base path) asking for ids only and returns
+// the ids in the order of the answer.
+func (w *world) listIDs(pathQuery string) ([]string, error) {
+	pat, key := "/tasks", "tasks"
+	if strings.HasPrefix(pathQuery, "/templates") {
+		pat, key = "/templates", "templates"
+	}
+	code, body := w.call("GET", pat, httpd.BasePath+pathQuery+"&fields=id", nil)
+	if code != 200 {
+		return nil, fmt.Errorf("code %d", code)
+	}
+	var m map[string][]map[string]any
+	if err := json.Unmarshal(body, &m); err != nil {
+		return nil, err
+	}
+	var ids []string
+	for _, e := range m[key] {
+		id, _ := e["id"].(string)
+		ids = append(ids, id)
+	}
+	return ids, nil
 }
 
 // assoc dumps the template/task association keys straight from the store.
